@@ -61,7 +61,9 @@ def generate(ctx):
     ents.append(('pe_terms', {'kind': 'moist', 'dry_air': True}))
     # digital filter initialisation: a multi-step entry point evaluated several times in one process
     ents.append(('dfi', {'kind': 'sw'}))
-    if not quick: ents.append(('dfi', {'kind': 'dry'}))
+    if not quick: ents.append(('dfi', {'kind': 'dry'})); ents.append(('dfi', {'kind': 'time'}))
+    ents.append(('pe_step', {'kind': 'time', 'integrator': 'crank_nicolson_rk2', 'filters': [], 'nsteps': 2}))
+    ents.append(('pe_terms', {'kind': 'time'}))
     ents.append(('sw_step', {'integrator': 'backward_forward_euler', 'rest_layer': True}))
     steps = ([('dry', 'imex_rk_sil3', ['exponential']), ('moist', 'crank_nicolson_rk3', []), ('dry', 'backward_forward_euler', ['diffusion'])]
              if quick else [(k, i, f) for k in ['dry', 'moist'] for i in dyn.INTEGRATORS for f in ([], ['exponential', 'diffusion'])])
@@ -268,9 +270,13 @@ def _pe_setup(rng, kind, K=3, upwind=False, matmul=None, impl='real', degree=2):
     return g, c, eq, make
 
 
-def _to_jnp(tree):
+def _to_jnp(tree, clock=None):
     m = dyn.mods()
-    return m['jax'].tree_util.tree_map(lambda q: m['jnp'].asarray(q, dtype=np.float64), tree)
+    t = m['jax'].tree_util.tree_map(lambda q: m['jnp'].asarray(q, dtype=np.float64), tree)
+    if clock is not None and getattr(t, 'sim_time', None) is not None:
+        # the clock is a differentiable leaf of the state: non-zero primal value and non-zero tangent component
+        t = t.replace(sim_time=m['jnp'].asarray(clock, dtype=np.float64))
+    return t
 
 
 def _at_rest(st):
@@ -282,7 +288,7 @@ def r_pe_terms(ctx, a):
     rng = _seed(ctx, a)
     g, c, eq, make = _pe_setup(rng, a['kind'], upwind=a.get('upwind', False), matmul=a.get('matmul'), impl=a.get('impl', 'real'),
                                degree=a.get('degree', 2))
-    x = _to_jnp(make()); v = _to_jnp(make())
+    x = _to_jnp(make(), 0.375); v = _to_jnp(make(), 0.75)
     tag = a['kind'] + ('[upwind]' if a.get('upwind') else '') + ('[%s]' % a['matmul'] if a.get('matmul') else '') + \
         ('[fast,padded]' if a.get('impl') == 'fast' else '') + ('[degree %d]' % a['degree'] if a.get('degree') else '')
     if a.get('rest'):
@@ -319,7 +325,7 @@ def r_pe_step(ctx, a):
     step = dyn.integrator(a['integrator'], eq, dt)
     step = ti.step_with_filters(step, dyn.step_filters(a['filters'], g, abs(dt)))
     if a['nsteps'] > 1: step = ti.repeated(step, a['nsteps'])
-    x = _to_jnp(make()); v = _to_jnp(make())
+    x = _to_jnp(make(), 0.375); v = _to_jnp(make(), 0.75)
     _ad_oracles(ctx, f'{a["kind"]} step {a["integrator"]} filters={a["filters"]} n={a["nsteps"]}', step, x, v, fd_tol=1e-6)
 
 
@@ -359,7 +365,7 @@ def r_dfi(ctx, a):
     if a['kind'] == 'sw':
         g, c, eq = _sw_setup(rng); x = _to_jnp(dyn.sw_state(rng, c)); v = _to_jnp(dyn.sw_state(rng, c))
     else:
-        g, c, eq, make = _pe_setup(rng, 'dry'); x = _to_jnp(make()); v = _to_jnp(make())
+        g, c, eq, make = _pe_setup(rng, a['kind']); x = _to_jnp(make(), 0.375); v = _to_jnp(make(), 0.75)
     dt = 0.02
     f = ti.digital_filter_initialization(eq, ti.imex_rk_sil3, dyn.step_filters(['exponential'], g, dt), time_span=8 * dt, cutoff_period=8 * dt, dt=dt)
     y1 = f(x); y2 = f(x); y3 = f(x)
@@ -408,6 +414,24 @@ def r_checkpoint(ctx, a):
     for u, v2 in zip(g1 + g3, g2 + g2):
         ctx.oracle_close('gradient of nested (checkpointed) scan = gradient of flat scan', u, v2, scale=sc, tol_rel=1e-11)
     ctx.oracle_close('value of nested scan = flat scan', loss_nested(init, xs), loss_flat(init, xs), tol_rel=1e-12)
+    # a non-default scan function must be used at EVERY nesting level: with a reversed scan the nested scan is the
+    # flat reversed scan (blocks in reverse order, elements of a block in reverse order), for values and gradients
+    import functools
+    rev = functools.partial(jax.lax.scan, reverse=True)
+    wts = jnp.arange(1, n + 1)[:, None]
+    def loss_nested_rev(init, xs):
+        cy, ys = ti.nested_checkpoint_scan(body, init, xs, length=n, nested_lengths=a['nested'], scan_fn=rev)
+        return jnp.sum(cy) + jnp.sum(ys * wts)
+    def loss_flat_rev(init, xs):
+        cy, ys = jax.lax.scan(body, init, xs, length=n, reverse=True)
+        return jnp.sum(cy) + jnp.sum(ys * wts)
+    g4 = jax.grad(loss_nested_rev, argnums=(0, 1))(init, xs); g5 = jax.grad(loss_flat_rev, argnums=(0, 1))(init, xs)
+    sc5 = max(dyn.tree_maxabs(g5), 1e-300)
+    for u, v2 in zip(g4, g5):
+        ctx.oracle_close('gradient of nested scan with scan_fn = reversed scan equals gradient of the flat reversed scan', u, v2, scale=sc5, tol_rel=1e-11)
+    ctx.oracle_close('value of nested scan with scan_fn = reversed scan = flat reversed scan', loss_nested_rev(init, xs), loss_flat_rev(init, xs), tol_rel=1e-12)
+    _, jv_n = jax.jvp(loss_nested_rev, (init, xs), (init * 0 + 1.0, xs * 0 + 0.5)); _, jv_f = jax.jvp(loss_flat_rev, (init, xs), (init * 0 + 1.0, xs * 0 + 0.5))
+    ctx.oracle_close('jvp of nested scan with scan_fn = reversed scan = jvp of the flat reversed scan', jv_n, jv_f, tol_rel=1e-11)
 
 
 RUNNERS = {'jvp_sigma': r_jvp_sigma, 'jvp_primeq': r_jvp_primeq, 'grid_ops': r_grid_ops, 'filters': r_filters, 'interp': r_interp,
